@@ -332,6 +332,7 @@ func runCompact(w *World) {
 				sleep(10 * time.Millisecond)
 			}
 			if again.err != nil || !again.ready {
+				dumpStacks()
 				w.violate("C16", "second_start_fails_after_crash_in_compaction", "%s: the server started once on the directory left behind, ran its start-up compaction, and does not start a second time: %v", p.what, again.err)
 				p.with = again
 				continue
